@@ -148,7 +148,23 @@ class SchemaGen:
     def s_string_enum(self):
         self.use("string_enum")
         n = self.r.randrange(1, 6)
-        return {"type": "string", "enum": self.sample(ENUM_VALUES, n)}
+        s = {"type": "string", "enum": self.sample(ENUM_VALUES, n)}
+        k = self.r.random()
+        if k < 0.18:
+            # enumerated values next to string constraints: the type holds the values that satisfy both
+            self.use("string_enum_constrained")
+            s["enum"] = self.sample(ENUM_VALUES + ["ΩΩ", "日本語", "é"], n + 1)
+            c = self.r.randrange(3)
+            if c == 0:
+                s["maxLength"] = self.r.randrange(1, 5)
+            elif c == 1:
+                s["minLength"] = self.r.randrange(1, 4)
+            else:
+                s["pattern"] = self.pick(["^[a-z]", "[A-Za-z]$", "^.{1,3}$"])
+        elif k < 0.26:
+            self.use("string_enum_nullable")
+            s = {"type": ["string", "null"], "enum": s["enum"] + [None]}
+        return s
 
     def s_typed_enum(self):
         self.use("typed_enum")
